@@ -28,9 +28,29 @@ META = {
     "assumptions": ["EbThreads.c replaced by harness/common/threads_model.h", "allocation succeeds (failures: C16)"],
     "outside": ["svt_av1_enc_deinit on a running encoder", "decoder memory map walk"],
     "stubs": ["svt_print_alloc_fail (empty)"], "explanation": ""}
+DH = "Source/Lib/Decoder/Codec/EbDecHandle.c"
+
+
+def gen_dec(wd):
+    import os, re
+    from vlib import slicer
+    src = slicer.read(DH)
+    g = re.findall(r"^(?:EbMemoryMapEntry \*|uint32_t \* *|uint64_t \* *|uint32_t +)(?:svt_dec_memory_map|svt_dec_memory_map_index|svt_dec_total_lib_memory|svt_dec_lib_malloc_count|memory_map_start_address|memory_map_end_address)[^;]*;", src, re.M)
+    if len(g) < 6:
+        raise RuntimeError("decoder memory-map globals not found (%d)" % len(g))
+    open(os.path.join(wd, "c15_dec.inc"), "w").write("/* file-scope definitions and functions sliced verbatim from EbDecHandle.c */\n" + "\n".join(g) + "\n" +
+        slicer.functions(DH, ["svt_dec_handle_ctor", "svt_av1_dec_deinit", "svt_dec_component_de_init"]))
+
+
 def queries(tier):
     qs = C16.queries(tier, fail=0, prefix="nofail_")
     qs.append(Query(name="threads_created_are_joined", harness="C15/threads.c", gen=gen_threads, unwind=6, timeout=600,
                     funcs=[EH + ":svt_av1_enc_init (thread creation statements, extracted)", EH + ":svt_enc_handle_stop_threads"],
                     bound="every per-stage process count 0..3 independently", what="teardown joins exactly the threads init created"))
+    for k in (0, 1, 2):
+        qs.append(Query(name="decoder_teardown_after_%d_allocations" % k, harness="C15/dec_teardown.c", gen=gen_dec, defines=["K=%d" % k], unwind=6, timeout=600,
+                        checks=["--unwinding-assertions", "--signed-overflow-check", "--undefined-shift-check", "--div-by-zero-check", "--bounds-check", "--pointer-check", "--memory-leak-check", "--drop-unused-functions", "--no-malloc-may-fail", "--trace"],
+                        funcs=[DH + ":svt_dec_handle_ctor", DH + ":svt_av1_dec_deinit", DH + ":svt_dec_component_de_init", "Source/Lib/Decoder/Codec/EbDecMemInit.h:EB_MALLOC_DEC"],
+                        bound="%d library allocation(s) between handle creation and deinit%s; arbitrary heap contents" % (k, " (deinit right after svt_av1_dec_init_handle)" if k == 0 else ""),
+                        what="decoder teardown frees exactly what was allocated: no invalid or double free, no leak"))
     return qs
